@@ -41,7 +41,7 @@ def _stages(tier):
     if th:
         st += [
             dict(name='valgrind', harness='h_read', flavour='opt', cases=240, custom='c13_stages:valgrind_subset'),
-            dict(name='strace-eio', harness='h_read', flavour='opt', cases=3, custom='c13_stages:strace_faults'),
+            dict(name='strace-eio', harness='h_read', flavour='opt', cases=4, custom='c13_stages:strace_faults'),
         ]
     return st
 
